@@ -58,8 +58,35 @@ def call(op, a, b):
     return ev, None
 
 
+def call_text(op, ta, tb):
+    """operands that arrive as decimal INPUT text (read by vy_eval, as program inputs are): a decimal with at most 15
+    significant digits denotes exactly itself"""
+    import vyxal.elements as E
+    from vyxal.context import Context
+    from vyxal.helpers import vy_eval
+
+    a, b = Fraction(ta), Fraction(tb)
+    ev = {"op": op, "a": rat_json(a), "b": rat_json(b), "err": "", "rty": "", "r": rat_json(Fraction(0)),
+          "k": rat_json(Fraction(math.floor(a / b)) if b != 0 else Fraction(0))}
+    try:
+        ctx = Context()
+        r = getattr(E, OPS[op])(vy_eval(ta, ctx), vy_eval(tb, ctx), ctx)
+    except Exception as e:  # noqa: BLE001
+        ev["err"] = type(e).__name__
+        return ev
+    j = runner.num_json(r)
+    ev["rty"] = j["ty"]
+    if j["ty"] in ("int", "rational"):
+        ev["r"] = {"neg": j["neg"], "num": j["num"], "den": j["den"]}
+    else:
+        ev["shown"] = str(r)[:80]
+    return ev
+
+
 def observe(case):
     kind = case[0]
+    if kind == "text":
+        return {"calls": [call_text(case[1], case[2], case[3])]}
     if kind == "pair":
         _, op, a, b = case
         ev, _ = call(op, a, b)
@@ -124,6 +151,25 @@ def main(tier):
         cs.append(("tree", gen_tree(rng, rng.randint(2, 5))))
     for _ in range(1500 if tier == "quick" else 20000):
         cs.append(("tree", gen_tree(rng, rng.randint(2, 5), wide=True)))
+    # operands read from decimal input text (13-15 significant digits, values close to simple fractions included)
+    texts = ["0.333333333333333", "0.666666666666667", "0.142857142857143", "0.1", "2.75", "1234.5678", "0.000000100000001",
+             "0.999999999999999", "3.14159265358979", "0.123456789012345", "12345678.9012345", "7", "-0.333333333333333",
+             "0.30000000000001", "1.00000000000001", "0.5", "-2.5", "100000000000001"]
+    for ta in texts:
+        for tb in texts[:10] + ["3", "0.3"]:
+            for op in OPS:
+                if not (op == "mod" and Fraction(tb) == 0):
+                    cs.append(("text", op, ta, tb))
+    for _ in range(300 if tier == "quick" else 6000):
+        def dec():
+            n = rng.randint(13, 15)
+            digs = "".join(rng.choice("0123456789") for _ in range(n)).lstrip("0") or "1"
+            k = rng.randint(0, len(digs))
+            return ("-" if rng.random() < 0.2 else "") + (digs[:k] or "0") + "." + (digs[k:] or "0")
+        ta, tb = dec(), dec()
+        op = rng.choice(list(OPS))
+        if not (op == "mod" and Fraction(tb) == 0):
+            cs.append(("text", op, ta, tb))
     # magnitudes far from 1 on either side: tiny and huge operands against ordinary ones
     tiny = [Fraction(n, 10 ** k) for k in (9, 10, 11, 12, 15, 20, 40) for n in (1, -1, 3, 7)] + \
            [Fraction(10 ** k + 1, 10 ** (2 * k)) for k in (6, 12)]
